@@ -54,6 +54,9 @@ var cmdMenu = []cmdFile{
 	{Name: "rma.json", Content: `[{"op":"remove","path":"/a"}]`},
 	{Name: "testlt.json", Content: `[{"op":"test","path":"/z","value":"<%s %d 100%"}]`},
 	{Name: "rootarr.json", Content: `[{"op":"replace","path":"","value":[{"a":1}]}]`},
+	{Name: "apA.json", Content: `[{"op":"add","path":"/-","value":"a"}]`},
+	{Name: "apB.json", Content: `[{"op":"add","path":"/-","value":"b"}]`},
+	{Name: "apC.json", Content: `[{"op":"add","path":"/0","value":"c"},{"op":"test","path":"/0","value":"c"}]`},
 }
 
 var cmdStdin = []string{
@@ -66,6 +69,7 @@ var cmdStdin = []string{
 	``,
 	`"scalar"`,
 	"{\"a\":1}\n{\"a\":2}",
+	`[]`,
 	// a 100 KB document (pipe buffers, bufio sizes)
 	`{"a":[` + strings.Repeat(`{"k":"v<%d"},`, 6000) + `0],"k":[1]}`,
 }
@@ -408,6 +412,31 @@ func runCmdx(ctx *core.Ctx, tier string) {
 					units = append(units, unit{b, l, true, s, nil})
 				}
 			}
+		}
+		// ORDER and REPETITION beyond length 3: every list of up to 5 options over three non-idempotent append
+		// patches (a repeat, then another file's first appearance, then that file again ...), on the empty array
+		var apLists [][]int
+		var recAp func(cur []int)
+		recAp = func(cur []int) {
+			if len(cur) >= 3 {
+				apLists = append(apLists, append([]int(nil), cur...))
+			}
+			if len(cur) == 5 {
+				return
+			}
+			for _, n := range []string{"apA.json", "apB.json", "apC.json"} {
+				recAp(append(cur, idxOf(n)))
+			}
+		}
+		recAp(nil)
+		emptyArr := -1
+		for si, t := range cmdStdin {
+			if t == `[]` {
+				emptyArr = si
+			}
+		}
+		for _, l := range apLists {
+			units = append(units, unit{b, l, false, emptyArr, nil})
 		}
 		// positions: a failing / undecodable / missing file as the k-th of k -p options, k around the widths
 		// of a byte and of two; and the same lists without the failing file
